@@ -239,8 +239,108 @@ def build_driver():
     rc, out = sh("ocamlfind ocamlopt -w -a -o driver $(ocamlfind ocamldep -sort *.ml *.mli 2>/dev/null)", cwd=EXTRACTED, timeout=900)
     if rc != 0:
         raise Broken("driver does not compile against the extracted model", out[-2000:])
+    n = cross_check_extraction()
+    open(os.path.join(EXTRACTED, ".crosscheck"), "w").write("%d" % n)
     open(stamp, "w").write(h)
     return True
+
+
+def _coq_str(x):
+    return '"' + x.replace('"', '""') + '"'
+
+
+def _coq_bytes(b):
+    return "[" + "; ".join(str(c) for c in b) + "]%N"
+
+
+def cross_check_extraction(seed=1):
+    """The extracted OCaml code + the hand-written driver against the SAME definitions evaluated inside Coq
+    (vm_compute) on a sample of oracle-free commands: canonical names, pairwise key comparison on bit patterns,
+    the suspicious-range rule, single-byte languages, the declaration matcher, the UTF-8 and single-byte
+    decoders, and the mess detector with a constant flag oracle.  Returns the number of cases compared."""
+    import random, subprocess
+    rnd = random.Random(seed)
+    tj = json.load(open(os.path.join(BUILD, "tables.json")))
+    labels = [l for l, _ in tj["LABELS"]]
+    names = [r[0] for r in tj["UNICODE_RANGES"]]
+    cmds, exprs = [], []
+    hx = lambda b: (b.hex() if b else "-")
+    # 1. iana_name
+    pool = rnd.sample(labels, 25) + ["ascii", "ISO-8859-1", " utf8 ", "Latin1", "x-nope", "", "hz", "KOI8-RU", "utf-16le", "replacement"]
+    for l in pool:
+        cmds.append("NAME " + hx(l.encode()))
+        exprs.append(('match iana_name %s with Some n => @SOME n | None => @NONE end' % _coq_str(l), "name"))
+    # 2. cmp_key on bit patterns around the thresholds
+    vals = [0, 0x80000000, 0x3c23d70a, 0x3c23d70b, 0x3ca3d70a, 0x3dcccccd, 0x3e4ccccd, 0x3f000000, 0x3f800000, 0x7f800000, 0x7fc00000, 0x34000000, 0x3c03126f]
+    for _ in range(40):
+        k = [rnd.choice(vals) for _ in range(6)]
+        cmds.append("CMP " + " ".join(str(x) for x in k))
+        exprs.append(("cmp_key F32ops (of_bits32 %d, of_bits32 %d, of_bits32 %d) (of_bits32 %d, of_bits32 %d, of_bits32 %d)" % tuple(k), "cmp"))
+    # 3. suspicious rows
+    for a in rnd.sample(names, 6) + [None]:
+        cmds.append("SUSPROW " + (hx(a.encode()) if a else "-"))
+        exprs.append(("map (fun ob => suspicious %s ob) (None :: map (fun r => Some (fst (fst r))) UNICODE_RANGES)" % ("(Some %s)" % _coq_str(a) if a else "None"), "row"))
+    # 4. single-byte languages
+    for e in ["windows-1251", "iso-8859-7", "windows-1252", "koi8-r", "utf-8", "windows-874"]:
+        cmds.append("SBLM " + hx(e.encode()))
+        exprs.append(("sb_langs32 %s" % _coq_str(e), "strs"))
+    # 5. declarations
+    for d in [b'<meta charset="utf-8">', b"# -*- coding: latin-1 -*-", b"encoding=KOI8-R", b"charset = nope charset=cp1251", b"no declaration here", b"coding:::::::::::x"]:
+        cmds.append("DECL " + hx(d))
+        exprs.append(("match any_specified_encoding %s with Some n => @SOME n | None => @NONE end" % _coq_bytes(d), "name"))
+    # 6. decoders
+    for b in [b"h\xc3\xa9llo", b"\xa9\xa9abc\xe4\xbd", b"\xf0\x9f\x98\x80x", b"\xed\xa0\x80", b"abc", b"\xc3"]:
+        for mode in ["STRICT", "CHUNK", "TEST"]:
+            cmds.append("U8 %s %s" % (mode, hx(b)))
+            exprs.append(("helper utf8_decoder [239; 191; 189]%%N %s Strict %s %s true" % (_coq_bytes(b), "true" if mode == "TEST" else "false", "true" if mode == "CHUNK" else "false"), "u8"))
+    p = subprocess.run([DRIVER], input="\n".join(cmds) + "\nQUIT\n", capture_output=True, text=True, timeout=300)
+    outs = [l for l in p.stdout.splitlines() if l.startswith("R ")]
+    if p.returncode != 0 or len(outs) != len(cmds):
+        raise Broken("extraction cross-check: the driver did not answer every command", (p.stdout + p.stderr)[-1500:])
+    checks = []
+    for (expr, kind), out in zip(exprs, outs):
+        r = out[2:]
+        if kind == "name":
+            if r == "NONE":
+                checks.append(expr.replace("@SOME", "(fun _ => false)").replace("@NONE", "true"))
+            else:
+                checks.append(expr.replace("@SOME", "String.eqb %s" % _coq_str(bytes.fromhex(r).decode())).replace("@NONE", "false"))
+        elif kind == "cmp":
+            checks.append("match %s with %s => true | _ => false end" % (expr, {"LT": "Lt", "EQ": "Eq", "GT": "Gt"}[r]))
+        elif kind == "row":
+            checks.append("list_eqb Bool.eqb (%s) [%s]" % (expr, "; ".join("true" if c == "1" else "false" for c in r)))
+        elif kind == "strs":
+            lst = [] if r == "-" else r.split(",")
+            checks.append("list_eqb String.eqb (%s) [%s]%%string" % (expr, "; ".join(_coq_str(x) for x in lst)))
+        elif kind == "u8":
+            if r.startswith("OK"):
+                body = r[3:].strip()
+                bs = b"" if body in ("", "-") else bytes.fromhex(body)
+                checks.append("match %s with HOk o => list_eqb N.eqb o %s | _ => false end" % (expr, _coq_bytes(bs)))
+            elif r.startswith("ERR"):
+                checks.append("match %s with HErr _ => true | _ => false end" % expr)
+            else:
+                checks.append("match %s with HFuel => true | _ => false end" % expr)
+    d = os.path.join(BUILD, "assum")
+    os.makedirs(d, exist_ok=True)
+    f = os.path.join(d, "cases.v")
+    with open(f, "w") as fh:
+        fh.write("From Coq Require Import List NArith ZArith String Bool.\nFrom Gen Require Import Tables.\n"
+                 "From Model Require Import Base Names Flt F32 Matches Declared Decode Md SbLangs.\nImport ListNotations.\nOpen Scope N_scope.\n")
+        for i, c in enumerate(checks):
+            fh.write("Definition case_%d : bool := %s.\n" % (i, c))
+        fh.write("Definition failing : list nat := filter (fun i => negb (nth i [%s] false)) (seq 0 %d).\n" % ("; ".join("case_%d" % i for i in range(len(checks))), len(checks)))
+        fh.write('Goal True. idtac "@@FAILING". exact I. Qed.\nEval vm_compute in failing.\n')
+    rc, out = sh(["coqc", "-Q", "Gen", "Gen", "-Q", "Model", "Model", f], cwd=COQ, timeout=900)
+    if rc != 0:
+        raise Broken("extraction cross-check: cases.v does not compile", out[-2000:])
+    tail = out.split("@@FAILING")[-1]
+    m = re.search(r"=\s*(\[.*?\]|nil)", tail, re.S)
+    if not m or (m.group(1) not in ("nil", "[]")):
+        bad = m.group(1) if m else tail[-300:]
+        raise Broken("extraction cross-check: the extracted program and the in-Coq evaluation disagree on cases %s" % bad,
+                     "\n".join("%d: %s -> %s" % (i, cmds[i], outs[i]) for i in range(len(cmds)))[:3000])
+    return len(checks)
 
 
 def build_harness():
